@@ -133,6 +133,18 @@ def main(tier, replay=None):
                         R.violation(dict(kind="model-implementation-disagreement", stream="S2-trace", scenario=c["id"], case=s1eval.case_json({k: v for k, v in c.items() if k != "extra_stage"}), diff=d), nofail=True)
                     else:
                         R.cov["traces_validated_against_impl"] += 1
+                # model trace (checkout scenarios): Sys.cmdCheckoutSegs
+                if c["cmd"][0] == "checkout" and not c.get("no_trace"):
+                    sc.restore()
+                    orders = s2.listing_orders(sc.proj)
+                    mt = s2.model_trace(drv, c, "checkout %s 0" % ("c" if "--copy" in c["cmd"] else "l"), orders)
+                    a, b = s2.renumber(canon), s2.renumber(mt or [])
+                    if a != b:
+                        import difflib
+                        d = [l for l in difflib.unified_diff(b, a, "model", "implementation", lineterm="", n=1)][:30]
+                        R.violation(dict(kind="model-implementation-disagreement", stream="S2-trace", scenario=c["id"], case=s1eval.case_json({k: v for k, v in c.items() if k != "extra_stage"}), diff=d), nofail=True)
+                    else:
+                        R.cov["traces_validated_against_impl"] += 1
                 if outside:
                     R.violation(dict(kind="property-violated-on-implementation", scenario=c["id"], violations=["mutating call outside project/cache/config: %s" % outside[:3]]))
                 # kill at every k: SIGKILL, and a catchable termination signal (SIGTERM / SIGINT: `kill`, Ctrl-C, a batch system)
